@@ -123,7 +123,8 @@ macro_rules! bigint_convert {
                     -((a as $type - value) as f64)
                 };
 
-                Self { hi: a, lo: b }
+                // the rounded remainder can land on the half-ulp tie next to an odd `a`
+                crate::arithmetic::fast_two_sum(a, b)
             }
         }
 
